@@ -1603,6 +1603,14 @@ class HealSparseMap(object):
             aux[np.isnan(aux)] = sentinel_out
             sparse_map_out = aux
 
+        # The overflow block must hold only sentinel values (reductions such as
+        # nansum/nanprod of an all-invalid group return 0/1 rather than NaN).
+        if self._is_rec_array:
+            for key in sparse_map_out.dtype.names:
+                sparse_map_out[key][0: nfine_per_cov] = sentinel_out
+        else:
+            sparse_map_out[0: nfine_per_cov] = sentinel_out
+
         # The coverage index map is now offset, we have to build a new one
         # Note that we need to keep the same order of the coverage map
         new_cov_map = HealSparseCoverage.make_from_pixels(self.nside_coverage,
